@@ -42,7 +42,12 @@ ab == V(arg[4])
 Cs == DyMul(cs, as)
 Cb == DyMul(cb, ab)
 
-MCInit == Init /\ phase = "case" /\ op \in Ops /\ arg \in [1..4 -> 0..G]
+(* initial states are blocks (operation, first argument); the cases of a block are its successors, so that
+   TLC's workers share the work *)
+MCInit == Init /\ phase = "blk" /\ op \in Ops /\ arg \in {<<k, 0, 0, 0>> : k \in 0..G}
+Enum == /\ phase = "blk"
+        /\ \E x \in [2..4 -> 0..G] : arg' = <<arg[1], x[2], x[3], x[4]>>
+        /\ phase' = "case" /\ UNCHANGED <<op, last>>
 
 -----------------------------------------------------------------------------
 (* the exact model value as a number the implementation could return (truncated at 2^-104) *)
@@ -78,56 +83,70 @@ McUnpremul == phase = "case" /\ op = "premul" /\ ~(arg[2] = 0 /\ arg[4] = 0)
               /\ UnpremultiplyChannel("f64", Cs, as, IF arg[3] = 0 THEN D0 ELSE cs) /\ Done
 Stay == phase = "done" /\ UNCHANGED mcvars
 
-MCNext == McBlend \/ McCompose \/ McPremul \/ McUnpremul \/ Stay
+MCNext == Enum \/ McBlend \/ McCompose \/ McPremul \/ McUnpremul \/ Stay
 MCSpec == MCInit /\ [][MCNext]_mcvars
 
 -----------------------------------------------------------------------------
-(* theorems, evaluated on every case *)
+(* theorems, evaluated on every case (q: the model value of the case, computed once) *)
 
 IsCase(S) == phase = "case" /\ op \in S
 
-BlendRange ==
-  IsCase(BlendModes) =>
-    LET b == BlendFn(op, cs, cb)  ao == OverAlpha(as, ab)
-    IN /\ QGe(b, D0) /\ QLe(b, D1)                    \* the blend function itself
-       /\ QGe(BQ, D0) /\ QLe(BQ, ao)                  \* 0 <= co <= ao: premultiplied and straight result in [0, 1]
-       /\ In01(ao)
-       /\ DyLe(D0, QLo(BQ)) /\ DyLe(QLo(BQ), QHi(BQ)) \* the rational bracket r <= sqrt(r) <= 1 agrees
+BlendRange(q) ==
+  LET b == BlendFn(op, cs, cb)  ao == OverAlpha(as, ab)
+  IN /\ QGe(b, D0) /\ QLe(b, D1)                    \* the blend function itself
+     /\ QGe(q, D0) /\ QLe(q, ao)                    \* 0 <= co <= ao: premultiplied and straight result in [0, 1]
+     /\ In01(ao)
+     /\ DyLe(D0, QLo(q)) /\ DyLe(QLo(q), QHi(q))    \* the rational bracket r <= sqrt(r) <= 1 agrees
 
-BlendOpaque ==
-  (IsCase(BlendModes) /\ arg[3] = G /\ arg[4] = G) =>
-    QEq(BQ, BlendFn(op, cs, cb)) /\ DyEq(OverAlpha(as, ab), D1)
+BlendOpaque(q) ==
+  (arg[3] = G /\ arg[4] = G) => QEq(q, BlendFn(op, cs, cb)) /\ DyEq(OverAlpha(as, ab), D1)
 
 (* blending with a transparent source leaves the backdrop, with a transparent backdrop the source *)
-BlendTransparent ==
-  IsCase(BlendModes) =>
-    /\ (arg[3] = 0 => QEq(BQ, QOf(Cb)) /\ DyEq(OverAlpha(as, ab), ab))
-    /\ (arg[4] = 0 => QEq(BQ, QOf(Cs)) /\ DyEq(OverAlpha(as, ab), as))
+BlendTransparent(q) ==
+  /\ (arg[3] = 0 => QEq(q, QOf(Cb)) /\ DyEq(OverAlpha(as, ab), ab))
+  /\ (arg[4] = 0 => QEq(q, QOf(Cs)) /\ DyEq(OverAlpha(as, ab), as))
 
-BlendSymmetric ==
-  IsCase(SymmetricModes) => QEq(BQ, BlendPre(op, cb, cs, ab, as)) /\ DyEq(OverAlpha(as, ab), OverAlpha(ab, as))
+BlendSymmetric(q) ==
+  op \in SymmetricModes => QEq(q, BlendPre(op, cb, cs, ab, as)) /\ DyEq(OverAlpha(as, ab), OverAlpha(ab, as))
 
-ComposeRange ==
-  IsCase(ComposeOps) =>
-    LET raw == ComposeAlphaRaw(op, as, ab)  ao == ComposeAlpha(op, as, ab)
-    IN /\ DyLe(D0, CQ) /\ DyLe(D0, raw) /\ In01(ao)
-       /\ (op # "plus" => DyLe(CQ, ao) /\ DyEq(raw, ao))
-       /\ (op = "plus" /\ DyLe(raw, D1) => DyLe(CQ, ao))     \* in range wherever as + ab <= 1
+(* the judge accepts the exact value and rejects a value 8 tolerances (relative to 1) away;
+   the component type alternates with the case *)
+TOf == IF (arg[1] + arg[2] + arg[3] + arg[4]) % 2 = 0 THEN "f64" ELSE "f32"
+BlendJudge(q) ==
+  LET t == TOf  x == Truth(q)  off == DyPow2(-(RelBits(t) - 3))  sc == DyMax(as, ab)
+  IN /\ NearQ(t, x, D1, q, sc)
+     /\ ~NearQ(t, DyAdd(x, off), D1, q, sc) /\ ~NearQ(t, DySub(x, off), D1, q, sc)
+
+BlendTheorems ==
+  IsCase(BlendModes) => LET q == BQ IN BlendRange(q) /\ BlendOpaque(q) /\ BlendTransparent(q) /\ BlendSymmetric(q) /\ BlendJudge(q)
+
+ComposeRange(c) ==
+  LET raw == ComposeAlphaRaw(op, as, ab)  ao == ComposeAlpha(op, as, ab)
+  IN /\ DyLe(D0, c) /\ DyLe(D0, raw) /\ In01(ao)
+     /\ (op # "plus" => DyLe(c, ao) /\ DyEq(raw, ao))
+     /\ (op = "plus" /\ DyLe(raw, D1) => DyLe(c, ao))       \* in range wherever as + ab <= 1
 
 (* FALSE on the model: lighter's co = Cs + Cb and ao = as + ab exceed 1 *)
-PlusRange ==
-  (AssertPlusRange /\ IsCase({"plus"})) => DyLe(CQ, D1) /\ DyLe(ComposeAlphaRaw(op, as, ab), D1)
+PlusRange(c) ==
+  (AssertPlusRange /\ op = "plus") => DyLe(c, D1) /\ DyLe(ComposeAlphaRaw(op, as, ab), D1)
 
-OverIdentities ==
-  IsCase({"over"}) =>
-    /\ (arg[3] = 0 => DyEq(CQ, Cb) /\ DyEq(ComposeAlpha(op, as, ab), ab))      \* transparent source: the backdrop
-    /\ (arg[3] = G => DyEq(CQ, Cs) /\ DyEq(ComposeAlpha(op, as, ab), D1))      \* opaque source: the source
+OverIdentities(c) ==
+  op = "over" =>
+    /\ (arg[3] = 0 => DyEq(c, Cb) /\ DyEq(ComposeAlpha(op, as, ab), ab))      \* transparent source: the backdrop
+    /\ (arg[3] = G => DyEq(c, Cs) /\ DyEq(ComposeAlpha(op, as, ab), D1))      \* opaque source: the source
     /\ DyEq(ComposeAlpha(op, as, ab), OverAlpha(as, ab))
-    /\ (arg[3] = G /\ arg[4] = G => DyEq(CQ, cs))
+    /\ (arg[3] = G /\ arg[4] = G => DyEq(c, cs))
 
-ComposeSymmetric ==
-  IsCase(SymmetricOps) => /\ DyEq(CQ, ComposePre(op, Cb, Cs, ab, as))
-                          /\ DyEq(ComposeAlpha(op, as, ab), ComposeAlpha(op, ab, as))
+ComposeSymmetric(c) ==
+  op \in SymmetricOps => /\ DyEq(c, ComposePre(op, Cb, Cs, ab, as))
+                         /\ DyEq(ComposeAlpha(op, as, ab), ComposeAlpha(op, ab, as))
+
+ComposeJudge(c) ==
+  LET t == TOf  off == DyPow2(-(RelBits(t) - 3))  sc == DyMax(as, ab)
+  IN NearDy(t, c, c, sc) /\ ~NearDy(t, DyAdd(c, off), c, sc) /\ ~NearDy(t, DySub(c, off), c, sc)
+
+ComposeTheorems ==
+  IsCase(ComposeOps) => LET c == CQ IN ComposeRange(c) /\ PlusRange(c) /\ OverIdentities(c) /\ ComposeSymmetric(c) /\ ComposeJudge(c)
 
 (* premultiply then unpremultiply: c is the only grid value x with x * a = c * a (a # 0) *)
 PremulRoundTrip ==
@@ -135,20 +154,7 @@ PremulRoundTrip ==
     /\ (arg[3] # 0 => {x \in 0..G : DyEq(DyMul(V(x), as), Cs)} = {arg[1]})
     /\ (arg[3] = 0 => DyIsZero(Cs))
 
-(* the judges accept the exact value and reject a value 8 tolerances (relative to 1) away *)
-JudgesSound ==
-  /\ IsCase(BlendModes) =>
-       \A t \in FloatTypes :
-         LET x == Truth(BQ)  off == DyPow2(-(RelBits(t) - 3))  sc == DyMax(as, ab)
-         IN /\ NearQ(t, x, D1, BQ, sc)
-            /\ ~NearQ(t, DyAdd(x, off), D1, BQ, sc) /\ ~NearQ(t, DySub(x, off), D1, BQ, sc)
-  /\ IsCase(ComposeOps) =>
-       \A t \in FloatTypes :
-         LET off == DyPow2(-(RelBits(t) - 3))  sc == DyMax(as, ab)
-         IN NearDy(t, CQ, CQ, sc) /\ ~NearDy(t, DyAdd(CQ, off), CQ, sc) /\ ~NearDy(t, DySub(CQ, off), CQ, sc)
-
-Inv == TypeOK /\ BlendRange /\ BlendOpaque /\ BlendTransparent /\ BlendSymmetric /\ ComposeRange /\ PlusRange
-       /\ OverIdentities /\ ComposeSymmetric /\ PremulRoundTrip /\ JudgesSound
+Inv == TypeOK /\ BlendTheorems /\ ComposeTheorems /\ PremulRoundTrip
 
 -----------------------------------------------------------------------------
 (* fixed points, evaluated once: branch points are grid points, the non-commutative modes really are
